@@ -6,6 +6,7 @@ import (
 	"net/url"
 	"os"
 	"path/filepath"
+	"sort"
 	"strconv"
 	"strings"
 )
@@ -596,8 +597,15 @@ func (rule *RuleAction) checkAction(meta *ActionMetadata, exec *ExecAction, desc
 		}
 	}
 
-	// Check mandatory inputs are specified
-	for id, i := range meta.Inputs {
+	// Check mandatory inputs are specified. The errors are reported at the same position. Check the inputs
+	// in sorted order to make the order of the errors deterministic.
+	ids := make([]string, 0, len(meta.Inputs))
+	for id := range meta.Inputs {
+		ids = append(ids, id)
+	}
+	sort.Strings(ids)
+	for _, id := range ids {
+		i := meta.Inputs[id]
 		if i.Required {
 			if _, ok := exec.Inputs[id]; !ok {
 				ns := make([]string, 0, len(meta.Inputs))
